@@ -72,7 +72,12 @@ impl Buildpack for Vbp {
             "target": target_json(&c.target), "env": env_json(&c.platform), "descriptor": desc_json(&c.buildpack_descriptor)}));
         match self.script["detect"].as_str().unwrap_or("pass") {
             "pass" => DetectResultBuilder::pass().build(),
-            "pass_plan" => DetectResultBuilder::pass().build_plan(BuildPlanBuilder::new().provides("vbp").requires("vbp").build()).build(),
+            "pass_plan" => {
+                let mut req = libcnb::data::build_plan::Require::new("vbp");
+                let md: toml::Table = "zulu = 1\nalpha = 2\nmike = { b = 1, a = 2 }\n".parse().unwrap();
+                req.metadata(md).unwrap();
+                DetectResultBuilder::pass().build_plan(BuildPlanBuilder::new().provides("vbp").requires(req).or().provides("other").build()).build()
+            }
             "fail" => DetectResultBuilder::fail().build(),
             _ => Err(libcnb::Error::BuildpackError(VErr("scripted detect error".into()))),
         }
@@ -105,11 +110,25 @@ impl Buildpack for Vbp {
             b = b.store(Store::default());
         }
         if self.script["launch"] == "yes" {
-            b = b.launch(LaunchBuilder::new().process(ProcessBuilder::new(process_type!("web"), ["run", "vbp"]).default(true).build()).build());
+            b = b.launch(
+                LaunchBuilder::new()
+                    .process(ProcessBuilder::new(process_type!("web"), ["run", "vbp"]).default(true).build())
+                    .process(ProcessBuilder::new(process_type!("worker"), ["work"]).args(["--queue", "a b"]).build())
+                    .process(ProcessBuilder::new(process_type!("console"), ["sh"]).working_directory(libcnb::data::launch::WorkingDirectory::Directory("bin dir".into())).build())
+                    .label(libcnb::data::launch::Label { key: "zeta".into(), value: "1".into() })
+                    .label(libcnb::data::launch::Label { key: "alpha".into(), value: "2".into() })
+                    .slice(libcnb::data::launch::Slice { path_globs: vec!["z/*".into(), "a/*".into()] })
+                    .build(),
+            );
         }
         if self.script["storeout"] == "yes" {
             let mut t = toml::Table::new();
             t.insert("written-by".into(), toml::Value::String("vbp".into()));
+            for (i, k) in ["zulu", "alpha", "mike", "bravo", "yankee", "charlie"].iter().enumerate() {
+                let mut inner = toml::Table::new();
+                for kk in ["x-ray", "delta", "omega"] { inner.insert(kk.into(), toml::Value::Integer(i as i64)); }
+                t.insert((*k).into(), toml::Value::Table(inner));
+            }
             b = b.store(Store { metadata: t });
         }
         for f in self.script["bsbom"].as_array().cloned().unwrap_or_default() {
